@@ -16,7 +16,7 @@ from . import series_common as sc
 ID = "C19"
 PROPS = "props/C19.v"
 GENERATED = [tr.OUT, tr.OUT4, tr.OUT5]
-CASE_DEPS = ["lib/CaseUtil.vo", "lib/DbCase.vo", "model/Databox.vo", "model/Slate.vo", "model/Csv.vo"]
+CASE_DEPS = ["lib/CaseUtil.vo", "lib/DbCase.vo", "model/Databox.vo", "model/Slate.vo", "model/Csv.vo", "model/Merge6.vo"]
 ALLOWED_AXIOMS: set = set()
 TRUSTED = [
     "translator/csvfmt.py (Frequency enum, default frequency order and rounding -> gen/CsvGen.v; fails closed when the "
@@ -512,6 +512,60 @@ def ops_shard(hs) -> str:
     return (HEADER + "Definition hs : list (dregs FA * list dop * list (res (databox FA)) * option (list (databox FA))) := [\n"
             + ";\n".join(c_history(h) for h in hs) + "\n].\n"
             + "Eval vm_compute in (failing_codes (map (check_ops_all tb) hs) 0).\n")
+
+
+# ====================================================================== round 6: target state after a reporting merge
+
+REPORTING = ["error", "error", "critical", "critical", "silent", "warning"]
+
+
+def gen_merge_report_case(rng) -> dict:
+    """self.merge(others, strategy) with a reporting strategy; the TARGET is observed after the call returned or raised."""
+    w = World(rng, nfreq=rng.choice([1, 2]))
+    nb = rng.choice([1, 2, 2, 3, 4])
+    target = w.databox(rng.choice([0.0, 0.15, 0.3, 0.5]))
+    others = [w.databox(rng.choice([0.1, 0.2, 0.35])) for _ in range(nb)]
+    if rng.random() < 0.35:      # no key twice: the call must not raise
+        seen = {k for k, _ in target}
+        for i, o in enumerate(others):
+            others[i] = [[k, v] for k, v in o if k not in seen]
+            seen |= {k for k, _ in others[i]}
+    strategy = rng.choice(REPORTING)
+    T = mk_db(target)
+    args = [mk_db(o) for o in others]
+    single = nb == 1 and rng.random() < 0.5
+    raised = None
+    try:
+        with warnings.catch_warnings():
+            warnings.simplefilter("ignore")
+            T.merge(args[0] if single else args, strategy)
+    except Exception as e:  # noqa
+        raised = f"{type(e).__name__}: {e}"[:120]
+    return {"target": target, "others": others, "strategy": strategy, "single": single, "raised": raised,
+            "after": observe_db(T), "t_obs": observe_db(mk_db(target)), "o_obs": [observe_db(mk_db(o)) for o in others]}
+
+
+MERGE6_DEFS = """From Verif Require Import model.Merge6.
+(* 0 = agree; 1 = the target after the call differs; 2 = raised / did not raise differs *)
+Definition check_merge6 (c : databox FA * list (databox FA) * bool * bool * bool * databox FA) : nat :=
+  let '(db, others, critical, raising, raised, after) := c in
+  let '(d, dup) := merge_report_state FA critical db others in
+  if negb (databox_eqb tb d after) then 1%nat
+  else if Bool.eqb (raising && dup) raised then 0%nat else 2%nat.
+"""
+
+
+def merge6_shard(items) -> str:
+    rows = []
+    for c in items:
+        rows.append("  (%s,\n   %s,\n   %s, %s, %s,\n   %s)" % (
+            c_db(c["t_obs"]), coq_list([c_db(o) for o in c["o_obs"]], sep=";\n    "),
+            coq_bool(c["strategy"] == "critical"), coq_bool(c["strategy"] in ("error", "critical")),
+            coq_bool(c["raised"] is not None), c_db(c["after"])))
+    return (HEADER + MERGE6_DEFS
+            + "Definition cs : list (databox FA * list (databox FA) * bool * bool * bool * databox FA) := [\n"
+            + ";\n".join(rows) + "\n].\n"
+            + "Eval vm_compute in (failing_codes (map check_merge6 cs) 0).\n")
 
 
 # ====================================================================== dataslates
@@ -1188,7 +1242,26 @@ def correspondence(ctx) -> CorrResult:
     for i in range(0, len(hs), per):
         shards.append(ops_shard(hs[i:i + per])); meta.append(("ops", hs[i:i + per]))
 
-    res.evaluations = len(csv_items) + len(imp_items) + len(sl_items) + len(so_items) + dist["ops"]["steps"]
+    # ---- round 6: the target databox after merge with a reporting strategy (returned or raised)
+    n_m6 = max(1, int(dev * ctx.scale(240, 5000)))
+    m6 = []
+    dist["merge_report"] = {"strategy": {}, "outcome": {}, "databoxes": {}}
+    for i in range(n_m6):
+        c = gen_merge_report_case(rng)
+        if not (representable(c["after"]) and representable(c["t_obs"]) and all(representable(o) for o in c["o_obs"])):
+            continue
+        m6.append(c)
+        _bump(dist["merge_report"]["strategy"], c["strategy"])
+        _bump(dist["merge_report"]["databoxes"], str(len(c["others"])))
+        grew = len(c["after"]) > len(c["t_obs"])
+        _bump(dist["merge_report"]["outcome"], ("raised" if c["raised"] else "returned") + (", target grew" if grew else ", target unchanged"))
+        if sum(len(o) for o in c["others"]) >= 2:
+            nontrivial.add("merge6:" + repr((c["target"], c["others"], c["strategy"])))
+    per = 120
+    for i in range(0, len(m6), per):
+        shards.append(merge6_shard(m6[i:i + per])); meta.append(("merge_report", m6[i:i + per]))
+
+    res.evaluations = len(csv_items) + len(imp_items) + len(sl_items) + len(so_items) + dist["ops"]["steps"] + len(m6)
     res.distinct_nontrivial = len(nontrivial)
     res.distribution = dist
     res.rule = ("csv: a random databox (series of 1-6 frequencies incl. integer and daily, 1-3 variants, interior missing "
@@ -1202,6 +1275,8 @@ def correspondence(ctx) -> CorrResult:
                 "to_databox(span=full|base) are compared. ops: histories of up to 8 databox operations over 3 databoxes with random name selections "
                 "(lists, single names, predicates, renaming functions; merge of 1-3 databoxes in one call, all strategies), "
                 "the destination databox compared after every step and every databox of the session after the history. "
+                "merge_report: self.merge(1-4 databoxes, silent|warning|error|critical); the TARGET databox after the call "
+                "returned or raised and whether it raised are compared with model/Merge6.v: merge_report_state. "
                 "csv databoxes include sheets of empty series only (no data rows). non-trivial = at least one block and 2 data rows / a non-empty slate / 3+ executed operations; "
                 "distinct = distinct case text")
     res.samples = [
@@ -1249,6 +1324,11 @@ def _disagreement(kind, item, code) -> Disagreement:
         where = {1: "slate:state-after-methods", 2: "slate:to_databox(full)-after-methods",
                  3: "slate:to_databox(base)-after-methods"}.get(code, "slate:methods")
         return Disagreement(where, case, "model differs", {1: st, 2: full, 3: base}.get(code))
+    if kind == "merge_report":
+        c = item
+        return Disagreement("merge:target-after-call" if code == 1 else "merge:raises",
+                            {"self": c["target"], "others": c["others"], "strategy": c["strategy"]},
+                            "model differs", {"raised": c["raised"], "target_after": c["after"]})
     h = item
     if code == 1000:
         return Disagreement("ops:session-state", {"init": h["init"], "ops": h["ops"]},
